@@ -35,6 +35,7 @@ type Ctx struct {
 	lf          map[*ssa.Function]*lockFacts
 	boundsReady bool
 	Instrs      int
+	callersIdx  map[*ssa.Function]*callerInfo
 }
 
 func shortPath(p string) string {
